@@ -77,7 +77,8 @@ def step (st : St) (tok : List String) (_line : String) (impl : Option String) :
       let ps := m1.peers p
       let ls := match ps.hrec with | some r => b r.success | none => "-"
       let accepted := out == "r=1"
-      let core := s!"{out} kv={b (keyValid pub)} pv={b (st.env.powValid p pub nonce)} sk={keyTok ps.sess} sm={keyTok ps.smKey} rep={ps.rep} ls={ls}"
+      let pvTok := if keyValid pub then b (st.env.powValid p pub nonce) else "-"
+      let core := s!"{out} kv={b (keyValid pub)} pv={pvTok} sk={keyTok ps.sess} sm={keyTok ps.smKey} rep={ps.rep} ls={ls}"
       let line := match kind with
         | .direct => core
         | .transport => core ++ s!" ak={if accepted then keyTok ps.sess else "-"} ack={b accepted}"
